@@ -34,6 +34,7 @@ import (
 	"oras.land/oras-go/v2/internal/graph"
 	"oras.land/oras-go/v2/internal/ioutil"
 	"oras.land/oras-go/v2/internal/resolver"
+	"oras.land/oras-go/v2/internal/verifhook"
 )
 
 // bufPool is a pool of byte buffers that can be reused for copying content
@@ -260,6 +261,7 @@ func (s *Store) push(ctx context.Context, expected ocispec.Descriptor, content i
 
 	// check the status of the name
 	status := s.status(name)
+	verifhook.Point("file.push")
 	status.Lock()
 	defer status.Unlock()
 
@@ -343,6 +345,7 @@ func (s *Store) Exists(ctx context.Context, target ocispec.Descriptor) (bool, er
 
 	// check if the content exists in the store
 	_, exists := s.digestToPath.Load(target.Digest)
+	verifhook.Point("file.Exists")
 	if exists {
 		return true, nil
 	}
